@@ -86,6 +86,19 @@ PROPS = {
         phases=[P(kind="fuzz", bin="c07_match", runs_quick=16000, runs_thorough=3000000, workers_quick=12, workers_thorough=16, max_len=1024, rss=4000, timeout=120, detect_leaks=0)],
         floor_quick=800, floor_thorough=100000,
     ),
+    "C09": P(
+        title="only the addressee of a pending call can answer it, once",
+        level="exploration",
+        technique="stateful model-based testing under a requested-replies-only policy: libFuzzer-generated histories and batches (belief-set serialisation search) on an in-process bus under a virtual clock, compared with a reply-slot model",
+        level_text=("Exploration: histories of method calls (fresh and reused serials, NO_REPLY_EXPECTED), genuine / duplicate / wrong-serial / third-party / to-third-party replies and errors, "
+                    "closes of callers and callees, a small max_replies_per_connection, and virtual time passing beyond a finite reply_timeout, issued singly or in batches of 2-3 from several clients. "
+                    "Every client's frames are compared in order with the slot model: a reply passes iff an open (caller, callee, serial) slot exists and is consumed; everything else earns its sender "
+                    "AccessDenied and reaches nobody (a bystander holding type= rules must see nothing); callee disconnect / expiry yield exactly one NoReply per open slot."),
+        level_note="Policy is the fixed requested-replies-only configuration (C06 varies policies); time is the harness' virtual clock (hook H1), advanced in steps that never land exactly on the timeout; trusts busmodel.cc.",
+        rule=("case = history decoded from fuzzer input. Non-trivial = >=1 illegitimate reply attempt after >=1 legitimate call; distinct = FNV-1a of the log with unique names renamed."),
+        phases=[P(kind="fuzz", bin="c09_replies", runs_quick=14000, runs_thorough=3000000, workers_quick=12, workers_thorough=16, max_len=1024, rss=4000, timeout=120, detect_leaks=0)],
+        floor_quick=600, floor_thorough=50000,
+    ),
     "C11": P(
         title="framing independent of chunking",
         level="exploration",
